@@ -324,6 +324,10 @@ func c13Race(n int, preset bool, rounds int) []string {
 	}
 	rt.Consumers = map[string]runtime.Consumer{"text/plain": c13Consumer{key: "text/plain"}, "*/*": c13Consumer{key: "*/*"}}
 	rt.Debug = false
+	if n%3 == 0 {
+		// exported fields a caller may leave unset: a call must read them, never fill them in
+		rt.Context = nil
+	}
 
 	var ok int64
 	var wg sync.WaitGroup
